@@ -177,6 +177,17 @@ pub open spec fn removed_by<T>(s: Seq<T>, idx: Seq<usize>, r: Seq<T>, kept: Seq<
 pub open spec fn removed<T>(s: Seq<T>, idx: Seq<usize>, r: Seq<T>) -> bool {
     exists|kept: Seq<int>| removed_by(s, idx, r, kept)
 }
+// membership of a position in an index list, without casts
+pub open spec fn in_rm(rm: Seq<usize>, i: int) -> bool { exists|k: int| 0 <= k < rm.len() && #[trigger] rm[k] as int == i }
+// the elements of s[0..f) whose position is not listed in rm, in order
+pub open spec fn keepseq<T>(s: Seq<T>, rm: Seq<usize>, f: int) -> Seq<T>
+    decreases f
+{
+    if f <= 0 { Seq::empty() } else {
+        let p = keepseq(s, rm, f - 1);
+        if in_rm(rm, f - 1) { p } else { p.push(s[f - 1]) }
+    }
+}
 pub proof fn lemma_push_contains(s: Seq<usize>, v: usize)
     ensures forall|x: usize| #[trigger] s.push(v).contains(x) <==> (s.contains(x) || x == v),
 {
@@ -203,7 +214,7 @@ VECEXT_TRAIT_MEMBERS = '''
 '''
 VECEXT_IMPL_MEMBERS = '''
     open spec fn ri_pre(&self, idx: Seq<usize>) -> bool { incr(idx) && forall|k: int| 0 <= k < idx.len() ==> idx[k] < self@.len() }
-    open spec fn ri_post(old_self: &Self, idx: Seq<usize>, new_self: &Self) -> bool { removed(old_self@, idx, new_self@) }
+    open spec fn ri_post(old_self: &Self, idx: Seq<usize>, new_self: &Self) -> bool { removed(old_self@, idx, new_self@) && new_self@ == keepseq(old_self@, idx, old_self@.len() as int) }
 '''
 REMOVE_INDICES = dict(requires=['old(self).ri_pre(to_remove@)'], ensures=['Self::ri_post(old(self), to_remove@, final(self))'])
 
@@ -214,7 +225,7 @@ def add_vecext(U, props):
             extra_members=VECEXT_TRAIT_MEMBERS, supertrait=': Sized')
     U.impl('harper-core/src/vec_ext.rs', 'impl<T> VecExt for Vec<T>',
            {'remove_indices': dict(external_body=True, props=list(props),
-                                   assumed='removed(old(self)@, to_remove@, final(self)@) given strictly increasing in-range indices',
+                                   assumed='removed(old(self)@, to_remove@, final(self)@) and, equivalently, final(self)@ == keepseq(old(self)@, to_remove@, len): the vector with exactly the listed positions deleted, given strictly increasing in-range indices',
                                    note='body = Vec::retain with a stateful closure: rejected by Verus, CBMC out of memory; checked by bounded-rac only')},
            extra_members=VECEXT_IMPL_MEMBERS)
 
